@@ -77,7 +77,7 @@ pub fn table_decommit(
     requires
         queries@.len() <= 0xffff_ffff, // [C18:table-decommit-query-count-fits-u32]
     ensures
-        r.is_ok() <==> table_decommit_ok(&commitment, fv(queries@), fv(decommitment.values@), fv(witness.vector.authentications@)), // [C01,C02,C05,C18:table-decommit-ok-iff-count-matches-and-rows-decommit]
+        r.is_ok() <==> table_decommit_ok(&commitment, fv(queries@), fv(decommitment.values@), fv(witness.vector.authentications@)), // [C01,C02,C05,C06,C07,C18:table-decommit-ok-iff-count-matches-and-rows-decommit]
 {
     // An extra layer is added to the height since the table is considered as a layer, which is not
     // included in vector_commitment.config.
